@@ -206,6 +206,8 @@ type funcInfo struct {
 	substs            []substEntry
 	inOverflowProof   bool
 	outEpoch, inEpoch map[*ssa.BasicBlock]map[string]string
+	// callEpoch: the epochs of the tracked fields right before each call instruction
+	callEpoch map[ssa.Instruction]map[string]string
 }
 
 func slotOf(v ssa.Value) (base ssa.Value, fname string, ok bool) {
@@ -417,6 +419,14 @@ func analyzeEpochs(fi *funcInfo) {
 						fi.epoch[ins] = map[string]string{f: cur[f]}
 					}
 				case ssa.CallInstruction:
+					if fi.callEpoch == nil {
+						fi.callEpoch = map[ssa.Instruction]map[string]string{}
+					}
+					snap := map[string]string{}
+					for k, e := range cur {
+						snap[k] = e
+					}
+					fi.callEpoch[ins] = snap
 					for f := range fi.fields {
 						if strings.HasPrefix(f, "cell:") {
 							if cellCallMayModify(v, fi.cells[f]) {
@@ -871,6 +881,14 @@ func (fi *funcInfo) contractFacts(a string, v ssa.Value, seen map[string]bool) [
 	case "strings.IndexByte":
 		p := fi.lenOf(com.Args[0])
 		out = append(out, atom(a).addK(1), p.sub(atom(a)).addK(-1))
+	default:
+		if sc := com.StaticCallee(); sc != nil && inMod(sc) {
+			for _, mk := range resultFacts(sc) {
+				l := mk(fi, a, call)
+				out = append(out, l)
+				out = append(out, fi.rangeFactsSeen(seen, l)...)
+			}
+		}
 	}
 	return out
 }
@@ -954,6 +972,7 @@ func (fi *funcInfo) rangeFactsSeen(seen map[string]bool, ls ...Lin) []Lin {
 // factsAt: dominating branch facts for block b
 func (fi *funcInfo) factsAt(b *ssa.BasicBlock, at ssa.Instruction) []Lin {
 	var facts []Lin
+	facts = append(facts, fi.entryFacts()...)
 	for d := b; d != nil; d = d.Idom() {
 		idom := d.Idom()
 		if idom == nil {
